@@ -47,7 +47,7 @@ def cases(ctx):
         yield {'kind': kind, 'w': w, 'A': float(10 ** (rng.uniform(-3, 3) if rng.random() < 0.6 else rng.uniform(-15, 6)) * rng.choice([-1, 1])), 'rmax': rmax, 'dr0': dr0,
                'levels': 4 if ctx.thorough() else 3,
                'api': str(rng.choice(['array', 'array', 'stacked', 'ma_real', 'ma_nonspatial'])),
-               'how': str(rng.choice(['fresh', 'fresh', 'fresh_dk', 'refine_dr_then_length', 'refine_length_then_dr', 'refine_length_then_dk']))}
+               'how': str(rng.choice(['fresh', 'fresh_positional', 'fresh_dk', 'refine_dr_then_length', 'refine_length_then_dr', 'refine_length_then_dk']))}
 
 
 def analytic(kind, w, A, r, k):
@@ -78,7 +78,9 @@ def run_case(ctx, case):
     for lv in range(levels):
         dr = dr0 / 2 ** lv
         L = int(round(rmax / dr))
-        if how == 'fresh' or d is None:
+        if how == 'fresh_positional':
+            d = pyPRISM.Domain(L, dr)                 # Domain(length, dr, dk): the documented argument order
+        elif how == 'fresh' or d is None:
             d = pyPRISM.Domain(length=L, dr=dr) if how != 'fresh_dk' else pyPRISM.Domain(length=L, dk=math.pi / rmax)
         elif how == 'fresh_dk':
             d = pyPRISM.Domain(length=L, dk=math.pi / rmax)
@@ -96,8 +98,14 @@ def run_case(ctx, case):
         api = case.get('api', 'array')
         if api == 'stacked':
             # several functions transformed in one call (rows of a 2-D array)
-            Fn = np.asarray(d.to_fourier(np.stack([f, 2 * f, 0 * f])))[0]
-            fn = np.asarray(d.to_real(np.stack([F, -F])))[0]
+            if L <= 512 and lv == 0:
+                # as many functions as grid points: a square stack
+                Fn = np.asarray(d.to_fourier(np.stack([f * (1 + i) for i in range(L)])))[0]
+                fn = np.asarray(d.to_real(np.stack([F * (1 + i) for i in range(L)])))[0]
+                ctx.hook('square_stack')
+            else:
+                Fn = np.asarray(d.to_fourier(np.stack([f, 2 * f, 0 * f])))[0]
+                fn = np.asarray(d.to_real(np.stack([F, -F])))[0]
         elif api in ('ma_real', 'ma_nonspatial'):
             # through the MatrixArray entry points; 'ma_nonspatial' = an array that lost its flag in arithmetic with a density array
             from pyPRISM.core.MatrixArray import MatrixArray
